@@ -25,20 +25,26 @@ def register(PROPS):
                  'FREQ=YEARLY;BYMONTH=1,12 with BYMONTHDAY=1,31 / 1,2,31, each with BYHOUR=9,17 / BYHOUR=9,17;BYMINUTE=0,30 / BYMINUTE=0,30 / BYSECOND=0,30 / BYHOUR=9 / no list, and SHIFT in '
                  '{0B, 0B+, -0B, 0B-, +-1B, +-2B, +-3B, +-5B, 0, +-1, +-2}, read to the end of 2030: the days of the stream are the days of the same rule read as an all-day rule without the lists '
                  '(DTSTART;VALUE=DATE:20200101, the stream the other families judge), every day exactly once with exactly the listed times, strictly increasing - in particular dates of adjacent '
-                 'periods that a business-day shift puts on one day (Sat 2020-02-29 and Sun 2020-03-01 -> Mon 03-02) come once - and with COUNT=c (c = 1..24) the stream is exactly the first c instants of the unlimited one.',
+                 'periods that a business-day shift puts on one day (Sat 2020-02-29 and Sun 2020-03-01 -> Mon 03-02) come once - and with COUNT=c (c = 1..24) the stream is exactly the first c instants of the unlimited one.  '
+                 'Family carry is BYEASTER with INTERVAL and BYEASTER after BYEASTER: (a) FREQ=YEARLY;INTERVAL=i;BYEASTER=N (i in {1,2,3,4,5,7}, N in {0,-2,1,39,49,-46,-102,250}) without SHIFT, with SHIFT=1B and SHIFT=-1B, '
+                 'DTSTART 1 January of 1999, 2000, 2001, 2010, 2024, the first 30 occurrences (to the end of 2098): occurrence k is the (shifted) Easter(y0 + k*i)+N of the computus; '
+                 '(b) sequences in ONE process: a rule A (DTSTART 2000 or 2003, INTERVAL 1 or 2, BYEASTER 0 or 39, COUNT 1..3) is read to its end, then a rule B that starts -8, -1, 0, 1, 2, 3, 5 or 10 years after A\'s last period '
+                 '(INTERVAL 1..3, BYEASTER in {0,-2,1,49,-46}, SHIFT none/1B/-1B, COUNT=6), then A again: each of the three streams must be what the computus gives, the two readings of A must be equal, and B must equal '
+                 'what the same text gives in a process in which nothing has been expanded before (a differential clause for state kept between expansions).',
         'note': 'Where README + property text are silent the oracle accepts every defensible reading (see assumptions), so it is lenient there; '
                 'combined specs (SHIFT=x,yB), FREQ=MONTHLY rules other than those of the multi, mstart, setpos and timed families, timed DTSTARTs and BYHOUR/BYMINUTE/BYSECOND lists outside the timed family and other BY* parts together with SHIFT/BYEASTER are not in the grammar '
                 '(C16 covers their ordering and bounds).',
         'rule': 'easter: a case is one N (one stream, 199 year-offsets inside; evaluations count year-offsets); shift: a case is one (family, spec, month) '
                 'with one stream per day of the month inside (evaluations count streams).  Cases are distinct by construction; non-trivial = every easter '
-                'case, and every shift case whose spec is not the plain SHIFT=0 (which moves nothing); timed: a case is one (SHIFT spec, rule, time list), evaluations count streams (the unlimited one and one per COUNT), non-trivial when the list has more than one time and the spec is not the plain SHIFT=0; the sanitizer passes repeat cases and are not counted',
+                'case, and every shift case whose spec is not the plain SHIFT=0 (which moves nothing); timed: a case is one (SHIFT spec, rule, time list), evaluations count streams (the unlimited one and one per COUNT), non-trivial when the list has more than one time and the spec is not the plain SHIFT=0; carry: a case is one (INTERVAL, N) with 15 streams inside, or one (A, start of B, INTERVAL of B) with 15 sequences of three streams + one stream in a fresh process inside (evaluations count streams), all non-trivial; the sanitizer passes repeat cases and are not counted',
         'bound': {
             'quick': 'BYEASTER complete (733 N x 199 years); SHIFT for N in {-8..8, +-31, +-258..262, +-300, +-366} x {days, B, B+, B-} + -0B, -0B- '
                      '(134 specs) x 366 rules x 3 families = 147 132 streams; plain family again under ASan; '
                      'setpos: 9 rules x 5 BYSETPOS values x 46 specs (|N| <= 10) = 2070 streams to 2023, again under ASan; '
-                     'timed: 17 specs x 6 rules x 6 time lists = 612 unlimited streams to 2030 + 24 COUNT streams each (15 300 streams), again under ASan',
+                     'timed: 17 specs x 6 rules x 6 time lists = 612 unlimited streams to 2030 + 24 COUNT streams each (15 300 streams), again under ASan; '
+                     'carry: 720 single streams of 30 occurrences + 8640 sequences (A, B, A again, B in a fresh process), again under ASan',
             'thorough': 'BYEASTER complete; SHIFT complete: 2934 specs x 366 rules x 3 families = 3 221 532 streams; quick set again under ASan; '
-                        'setpos: 9 rules x 5 BYSETPOS values x 86 specs (|N| <= 20) = 3870 streams to 2035; timed as in quick',
+                        'setpos: 9 rules x 5 BYSETPOS values x 86 specs (|N| <= 20) = 3870 streams to 2035; timed and carry as in quick',
         },
         'drivers': [
             D('c17_easter_shift', ['mode=long', 'nlist=quick', 'ymax=1945'], ['mode=long', 'nlist=all', 'ymax=1961'], label='shift-long'),
@@ -59,6 +65,8 @@ def register(PROPS):
             D('c17_easter_shift', ['mode=shift', 'fam=plain', 'nlist=quick', 'nocount=1', '--samples', '0'], label='shift-plain-asan', variant='asan'),
             D('c17_easter_shift', ['mode=timed', '--sample-every', '29'], label='shift-timed', shards=4),
             D('c17_easter_shift', ['mode=timed', 'nocount=1', '--samples', '0'], label='shift-timed-asan', variant='asan', shards=4),
+            D('c17_easter_shift', ['mode=carry', '--sample-every', '37'], label='easter-carry', shards=4),
+            D('c17_easter_shift', ['mode=carry', 'nocount=1', '--samples', '0'], label='easter-carry-asan', variant='asan', shards=4),
         ],
         'assumptions': [
             'Easter Sunday = anonymous Gregorian algorithm (Meeus ch. 8), harness/ref/computus.h, self-tested against 20 published dates; '
@@ -78,6 +86,9 @@ def register(PROPS):
             'two month ends, where occurrences are lost at cache refills (the known monthly findings)',
             'timed: the day set of the timed rule is taken from the all-day reading of the same rule (a differential clause: BYHOUR/BYMINUTE/BYSECOND give a day its times, they do not select days); '
             'the listed times are not before DTSTART\'s own time of day (09:00:00), so DTSTART\'s day keeps all of them; shifts of at most 5 (business) days',
+            'carry: a period is every INTERVAL-th calendar year from DTSTART\'s; Easter(y)+N of a period year y that stays, with its shifted image, inside y must occur; one that lands in another year (N = -102, a shifted 31 December), '
+            'or lands in a period year from a year that is none, may or may not occur (the README does not say to which period such a day belongs); occurrences behind 2098-12-31 (the first image of Easter 2100) are not judged; '
+            '"a process in which nothing has been expanded before" is a child of a server process forked off before the first expansion of the run',
             'occurrences are all-day (DTSTART;VALUE=DATE) outside the timed family; an occurrence that is not a date of the calendar (month 13, 29 February of a common year) is a violation',
         ],
     }
